@@ -1,4 +1,5 @@
-"""C26 persister store contract (memory persister; file persister harness: see C26_file when present)"""
+"""C26 persister store contract: memory persister (harness/C26_mem.c) and file persister over the POSIX file model
+(harness/C26_file.c, models/posixfs.c, models/ostream_fmt.c)"""
 import os
 from vf.core import *
 ROOTS = ['vf_mp_ctor', 'vf_mp_put', 'vf_mp_putc', 'vf_mp_get', 'vf_mp_getc', 'vf_mp_last', 'vf_mp_nearest', 'vf_mp_range']
@@ -6,10 +7,35 @@ FUN = ['FIX8::MemoryPersister::put(seq,str)', 'put(control)', 'get(seq)', 'get(c
        'std::map<unsigned,const f8String> header code (_Rb_tree::find/_M_get_insert_unique_pos/_M_insert_/lower_bound) as instantiated in runtime/persist.cpp']
 US = ['main.0:8', 'main.1:8', 'main.2:8', 'x_vf_range_cb.0:8', '_ZNK4FIX815MemoryPersister27find_nearest_highest_seqnumEjj.0:9', 'vf_copy.0:10']
 
+# ---- file persister family (shared with C27 / C29)
+FROOTS = ['vf_fp_ctor', 'vf_fp_init', 'vf_fp_put', 'vf_fp_putc', 'vf_fp_get', 'vf_fp_getc', 'vf_fp_last', 'vf_fp_nearest', 'vf_fp_range']
+FFUN = ['FIX8::FilePersister::initialise', 'FilePersister::put(seq,str)', 'put(control)', 'get(seq)', 'get(control)', 'get(from,to,session,callback)',
+        'find_nearest_highest_seqnum', 'get_last_seqnum', 'FIX8::CheckAddTrailingSlash', 'FIX8::exist',
+        'std::map<unsigned,Prec> header code (_Rb_tree::find/_M_get_insert_unique_pos/_M_insert_/lower_bound) as instantiated in runtime/filepersist.cpp']
+FSTUBS = ['GlobalLogger::is_loggable := false (logging off)', 'std::string out-of-line members, operator new, _Rb_tree_insert_and_rebalance/increment/decrement: models/cxx.c, models/cxx_more.c',
+          'std::ostringstream and operator<< (names dir/name, name.idx): models/ostream_fmt.c',
+          'open/close/read/write/lseek/access/rename/unlink/errno/strerror: models/posixfs.c (files = fixed byte arrays + length, per-descriptor offset, no I/O errors, writes atomic)']
+MSGLEN = 16      # FIX8_MAX_MSG_LENGTH in the verification build of filepersist.cpp (only dimensions the read buffers; payloads are <= 2 bytes)
+NAMELEN = 16
+def fs_unwindset(nfiles=2, nfd=4, namelen=NAMELEN):
+    return ['vf_fs_nameeq.0:%d' % (namelen + 1), 'vf_fs_lookup.0:%d' % (nfiles + 1), 'vf_fs_create.0:%d' % (namelen + 1), 'vf_fs_create.1:%d' % (namelen + 1),
+            'vf_fs_create.2:%d' % (nfiles + 1), 'x_open.0:%d' % (nfd + 1), 'x_rename.0:%d' % (namelen + 1), 'x_rename.1:%d' % (namelen + 1), 'vf_fs_new_process.0:%d' % (nfd + 1)]
+FUS = ['main.0:8', 'main.1:8', 'main.2:8', 'x_vf_range_cb.0:8', '_ZNK4FIX813FilePersister27find_nearest_highest_seqnumEjj.0:9', 'vf_copy.0:10'] + fs_unwindset()
+
 def build(ctx):
     shim = ctx.build_ir('c26.cpp', 'cut'); per = ctx.build_ir(REPO + '/runtime/persist.cpp', 'cut')
     ll = ctx.link_ir([shim, per], 'c26all')
     return ctx.translate(ll, ROOTS, 'c26.c', stubfiles=['common.stubs'], models=['cxx.c', 'stubs.c'], provided=['vf_range_cb'])
+
+def build_file(ctx, out='c26f.c', roots=FROOTS, provided=('vf_range_cb',), extra_ll=()):
+    """real FilePersister world: shim + persist.cpp + filepersist.cpp (message buffer scaled) + f8utils.cpp, file and ostream models"""
+    shim = ctx.build_ir('c26.cpp', 'cut'); per = ctx.build_ir(REPO + '/runtime/persist.cpp', 'cut')
+    fper = ctx.build_ir(REPO + '/runtime/filepersist.cpp', 'cut', extra=['-DFIX8_MAX_MSG_LENGTH=%d' % MSGLEN])
+    ut = ctx.build_ir(REPO + '/runtime/f8utils.cpp', 'cut')
+    ll = ctx.link_ir([shim, per, fper, ut] + list(extra_ll), out.replace('.c', '_all'))
+    return ctx.translate(ll, roots, out, stubfiles=['common.stubs', 'store.stubs'], models=['cxx.c', 'stubs.c', 'cxx_more.c', 'ostream_fmt.c', 'posixfs.c'], provided=list(provided))
+
+def opsname(sets): return '_'.join('%02x' % s for s in sets)
 
 def run(ctx):
     kf = known_findings('C26'); defs = kf_defines(kf)
@@ -21,20 +47,36 @@ def run(ctx):
                         stubs=['GlobalLogger::is_loggable := false (logging off)', 'std::string out-of-line members, operator new, _Rb_tree_insert_and_rebalance/increment/decrement: models/cxx.c'],
                         bounds='every sequence of %d operations drawn from op set 0x%02x {0 put,1 control-put,2 get,3 control-get,4 last,5 nearest,6 range-get}, seqnums 0..6, payloads 1-2 symbolic bytes' % (k, ops),
                         desc='real MemoryPersister against a reference map + control record'))
+    # file persister: per-position operation sets (position i draws from sets[i]); range retrieval is by far the most
+    # expensive operation to encode, so it is only placed last in a sequence
+    build_file(ctx)
+    fq = [(0x3f, 0x3f), (0x03, 0x03, 0x3c), (0x01, 0x03, 0x40)]
+    ft = fq + [(0x3f, 0x3f, 0x3f), (0x05, 0x05, 0x05), (0x03, 0x43, 0x40), (0x01, 0x01, 0x03, 0x3c), (0x01, 0x03, 0x01, 0x40)]
+    for sets in (fq if ctx.tier == 'quick' else ft):
+        k = len(sets)
+        ctx.add(Harness('C26_file_k%d_%s' % (k, opsname(sets)), VERIF + '/harness/C26_file.c',
+                        defines=defs + ['K=%d' % k, 'VF_MAXCOPY=8', 'VF_FS_FSIZE=%d' % (16 * (k + 1))] + ['OPS%d=0x%x' % (i, s) for i, s in enumerate(sets)], unwind=k + 2,
+                        unwindset=FUS + ['main.3:%d' % (k + 2)], flags=['--slice-formula'], timeout=900 if ctx.tier == 'quick' else 3000, mem_gb=16, functions=FFUN, stubs=FSTUBS,
+                        bounds='initialise on an empty directory, then every sequence of %d operations where position i draws from op set %s {bit 0 put,1 control-put,2 get,3 control-get,4 last,5 nearest,6 range-get}, '
+                               'seqnums 0..6, payloads 1-2 symbolic bytes; FIX8_MAX_MSG_LENGTH scaled to %d in filepersist.cpp; files <= %d bytes' % (k, [hex(s) for s in sets], MSGLEN, 16 * (k + 1)),
+                        desc='real FilePersister over the POSIX file model against a reference map + control record'))
     ctx.assumptions += ['operator new never fails', 'rb-tree rebalancing replaced by an unbalanced BST with the same in-order sequence',
                         'range retrieval uses a non-virtual recording callback on an opaque Session (only Session::get_next_send_seq is read)',
-                        'file persister: covered by harness family C26_file / C27 when registered; not part of this run unless listed in samples']
-    ctx.solve()
+                        'file persister: POSIX calls follow models/posixfs.c (no I/O errors, no short reads/writes); file names are built by models/ostream_fmt.c; '
+                        'crash/reopen behaviour is the subject of C27, not of this property']
+    ctx.solve(jobs=4)
     ctx.handle_failures(replay, kf)
     announce_known(ctx, kf, replay)
     return ctx.finish()
 
 def replay(ctx, cx, h=None):
     c = cx.get('cx', cx)
-    exe = ctx.native('c26replay', ['replay/c26_replay.cpp', REPO + '/runtime/persist.cpp'], flags=('-O1', '-fsanitize=address,undefined'), libs=['-L' + REPO + '/runtime/.libs', '-lfix8', '-Wl,-rpath,' + REPO + '/runtime/.libs'])
+    exe = ctx.native('c26replay', ['replay/c26_replay.cpp', REPO + '/runtime/persist.cpp', REPO + '/runtime/filepersist.cpp'], flags=('-O1', '-fsanitize=address,undefined', '-fno-sanitize=vptr'),
+                     libs=['-L' + REPO + '/runtime/.libs', '-lfix8', '-Wl,-rpath,' + REPO + '/runtime/.libs'])
     ops = c.get('cx_op', []); n = len(ops)
     def g(k, i): v = c.get(k, []); return int(v[i]) if i < len(v) else 0
     args = []
     for i in range(n): args += [str(g('cx_op', i)), str(g('cx_a', i)), str(g('cx_b', i)), str(g('cx_d0', i)), str(g('cx_d1', i)), str(g('cx_len', i))]
-    r = sh([exe, 'mem'] + args, env=dict(os.environ, ASAN_OPTIONS='detect_leaks=0'))
-    return r.returncode != 0, r.stdout.strip()[-400:].replace('\n', ' | ')
+    which = 'file' if (h is not None and '_file_' in h.name) or c.get('persister') == 'file' else 'mem'
+    r = sh([exe, which] + args, env=dict(os.environ, ASAN_OPTIONS='detect_leaks=0'))
+    return r.returncode != 0, which + ' persister: ' + r.stdout.strip()[-400:].replace('\n', ' | ')
